@@ -23,7 +23,19 @@ VARIANTS = {
     'sse42': {'RUSTFLAGS': '-C target-feature=+sse4.2'},               # compile-time SSE4.2 forwarders, SSE4.2 block loop + SWAR tail
     'avx2ct': {'RUSTFLAGS': '-C target-feature=+avx2'},                # compile-time AVX2 forwarders
     'swar': {'CARGO_CFG_HTTPARSE_DISABLE_SIMD': '1'},                  # word-at-a-time scanners only
+    # the NEON scanners on this x86-64 host: the snapshot's src/simd/neon.rs with its import of core::arch::aarch64 redirected to
+    # the emulation /verif/kani/neon_emu.rs (rule N1), and src/simd/mod.rs REPLACED by one that selects `neon` unconditionally
+    # (the cfg lattice itself is checked by tools/cfglattice.py).  Replay only: it can show a failing input, never a pass.
+    'neon-emu': {'CARGO_CFG_HTTPARSE_DISABLE_SIMD': '1'},
 }
+NEON_MOD_RS = '''// written by /verif/tools/witness.py for the `neon-emu` replay build only
+mod swar;
+#[allow(dead_code, unused_imports, clippy::all)]
+mod neon_emu;
+#[allow(dead_code, clippy::all)]
+mod neon;
+pub use self::neon::*;
+'''
 
 
 def build(variant='default'):
@@ -36,6 +48,14 @@ def build(variant='default'):
     src_b = os.path.join(REPO, 'benches', 'parse.rs')
     if os.path.exists(src_b):
         shutil.copy(src_b, os.path.join(snap, 'benches', 'parse.rs'))
+    if variant == 'neon-emu':
+        npath = os.path.join(snap, 'src', 'simd', 'neon.rs')
+        nt = open(npath).read()
+        if nt.count('use core::arch::aarch64::*;') != 1:
+            return d, None, 'src/simd/neon.rs: import of core::arch::aarch64 not found exactly once (rule N1)'
+        open(npath, 'w').write(nt.replace('use core::arch::aarch64::*;', 'use super::neon_emu::*;'))
+        shutil.copy(os.path.join(VERIF, 'kani', 'neon_emu.rs'), os.path.join(snap, 'src', 'simd', 'neon_emu.rs'))
+        open(os.path.join(snap, 'src', 'simd', 'mod.rs'), 'w').write(NEON_MOD_RS)
     t = open(os.path.join(VERIF, 'replay', 'Cargo.toml.in')).read().replace('@REPO@', snap)
     open(os.path.join(d, 'Cargo.toml'), 'w').write(t)
     env = dict(os.environ, CARGO_NET_OFFLINE='true')
@@ -81,7 +101,7 @@ def _search_one(variant, families, deep=0):
     return out
 
 
-def search(families=('all',), variants=('default', 'sse42', 'swar', 'avx2ct'), deep=0):
+def search(families=('all',), variants=('default', 'sse42', 'swar', 'avx2ct', 'neon-emu'), deep=0):
     """the same search on the same working tree built for each scanner back end; every finding carries `backend`.
     A finding that some back ends produce and others do not is additionally marked backend_dependent (C13)."""
     import concurrent.futures
@@ -175,7 +195,8 @@ def relevant(prop, f):
     parts = orc.split('+')
     if f.get('gen') == 'panic':
         # the real crate panicked / aborted on this input (debug assertions and UB precondition checks are on in the replay build)
-        return prop in ('C01', 'C13') or (prop == 'C09' and fam == 'chunk')
+        # ... a panic inside a scanner file is also the scanner not stopping where C12 says it stops
+        return prop in ('C01', 'C13') or (prop == 'C09' and fam == 'chunk') or (prop == 'C12' and 'src/simd/' in f.get('real', ''))
     if prop == 'C19':
         return fam == 'alloc'
     if fam == 'alloc':
